@@ -464,6 +464,11 @@ func wcRun(id int, sc *wcScen) {
 		ds.subframeOffsets[i] = (i * 3) % sc.SubDiv
 		ds.chanNumbers[i] = 10 + i
 		ds.chanNames[i] = fmt.Sprintf("chan%d", 10+i)
+		if sc.Nchan >= 2 && (sc.Nchan+sc.Nsamp)%2 == 0 {
+			// a TDM-like source: error / feedback partners share one channel number and differ in their names
+			ds.chanNumbers[i] = 10 + i/2
+			ds.chanNames[i] = fmt.Sprintf([]string{"err%d", "chan%d"}[i%2], 10+i/2)
+		}
 	}
 	if err := ds.PrepareRun(sc.Npre, sc.Nsamp); err != nil {
 		panic(err)
